@@ -78,6 +78,7 @@ func SetStepBudget(n int)     {}
 func DropSpawned()            {}
 func Spawned() int            { return 0 }
 func AllowUnbuffered(ch interface{}) {}
+func SetDialConn(conn interface{})   {}
 
 func IntRange(name string, lo, hi int) int {
 	v := int(int64(val(name)))
